@@ -37,6 +37,8 @@ pub enum LogEv {
     Set { index: usize, value: Fr },
     Remove { index: usize },
     Range { start: usize, values: Vec<Fr> },
+    /// several removals in one batch call (atomic_operation with indices only)
+    RemoveMany { indices: Vec<usize> },
 }
 
 #[derive(Clone, Debug, PartialEq)]
@@ -167,6 +169,7 @@ fn logev_to_json(e: &LogEv) -> Value {
         LogEv::Set { index, value } => json!({"e":"set","index":*index as u64,"value":fr_to_json(value)}),
         LogEv::Remove { index } => json!({"e":"remove","index":*index as u64}),
         LogEv::Range { start, values } => json!({"e":"range","start":*start as u64,"values":frs_to_json(values)}),
+        LogEv::RemoveMany { indices } => json!({"e":"remove_many","indices":usizes_to_json(indices)}),
     }
 }
 
@@ -175,6 +178,7 @@ fn logev_from_json(v: &Value) -> Option<LogEv> {
         "set" => LogEv::Set { index: v["index"].as_u64()? as usize, value: fr_from_json(&v["value"]) },
         "remove" => LogEv::Remove { index: v["index"].as_u64()? as usize },
         "range" => LogEv::Range { start: v["start"].as_u64()? as usize, values: frs_from_json(&v["values"]) },
+        "remove_many" => LogEv::RemoveMany { indices: usizes_from_json(&v["indices"]) },
         _ => return None,
     })
 }
@@ -341,6 +345,11 @@ fn apply_model(m: &mut IdealTree, e: &LogEv) {
         LogEv::Range { start, values } => {
             m.set_range(*start, values);
         }
+        LogEv::RemoveMany { indices } => {
+            for i in indices {
+                m.delete(*i);
+            }
+        }
     }
 }
 
@@ -368,6 +377,25 @@ fn apply_node(n: &mut NodeRt, e: &LogEv, shape: u8) -> Result<(), String> {
             1 => n.rln.set_leaves_from(*start, Cursor::new(crate::e1::enc_vec_fr(values))),
             _ => n.rln.atomic_operation(*start, Cursor::new(crate::e1::enc_vec_fr(values)), Cursor::new(crate::e1::enc_vec_u8(&[]))),
         },
+        // removal indices travel as single bytes at the byte level: the batch form needs all of them < 256
+        LogEv::RemoveMany { indices } => {
+            if shape % 3 != 0 && indices.iter().all(|i| *i < 256) {
+                let idx: Vec<u8> = indices.iter().map(|i| *i as u8).collect();
+                n.rln.atomic_operation(0, Cursor::new(crate::e1::enc_vec_fr(&[])), Cursor::new(crate::e1::enc_vec_u8(&idx)))
+            } else {
+                let mut r = Ok(());
+                for i in indices {
+                    // a position at or above the leaf count holds the default already (delete_leaf refuses it)
+                    if *i < n.rln.leaves_set() {
+                        r = n.rln.delete_leaf(*i);
+                        if r.is_err() {
+                            break;
+                        }
+                    }
+                }
+                r
+            }
+        }
     };
     r.map_err(|e| e.to_string())
 }
